@@ -46,7 +46,7 @@ Example C19_nonvacuous :
   let m r n b := {| d_kind := KMethod r n; d_doc := ""; d_rawdoc := ""; d_body := b; d_src := "func (r *" ++ r ++ ") " ++ n ++ "() { " ++ b ++ " }" |} in
   let h := {| d_kind := KFunc "helper"; d_doc := ""; d_rawdoc := ""; d_body := ""; d_src := "func helper() {}" |} in
   let f := {| f_name := "a.resolvers.go"; f_imports := []; f_decls := [m "queryResolver" "Kept" "body one"; m "queryResolver" "Gone" "body two"; h]; f_remaining := None |} in
-  let lv := [{| l_file := "a.resolvers.go"; l_methods := [("queryResolver", "Kept")]; l_structs := ["queryResolver"]; l_access := ["Query"] |}] in
+  let lv := [{| l_file := "a.resolvers.go"; l_methods := [("queryResolver", "Kept")]; l_structs := ["queryResolver"]; l_access := ["Query"]; l_root := false |}] in
   remaining_source lv f = "func (r *queryResolver) Gone() { body two }\nfunc helper() {}"
   /\ option_map d_body (prev_decl [f] "queryResolver" "Kept") = Some "body one".
 Proof. vm_compute. split; reflexivity. Qed.
